@@ -84,7 +84,16 @@ def _process(unit, path, contracts, mode, out, depth=0):
                 # graceful degradation: the function can no longer be brought into the verifier's reach (lost anchor, a rewrite
                 # rule that no longer applies). It is emitted as an ASSUMED contract so that the rest of the unit is still
                 # checked; the driver reports the property as undecided (exit 2) unless another obligation definitely fails.
-                em = X.emit_function(REPO, c, 'assume', unit.fmt_fns)
+                try:
+                    em = X.emit_function(REPO, c, 'assume', unit.fmt_fns)
+                except X.ExtractError as e2:
+                    if 'not found in' in str(e2):
+                        # the function no longer exists in the repository: nothing to emit (a remaining call of it is a front-end
+                        # error); recorded as degraded, so the property is undecided unless another obligation definitely fails
+                        unit.degraded.append({'contract': arg, 'reason': 'removed from the repository: ' + str(e2)})
+                        out.append(f'// ---- {arg}: item no longer exists in the repository')
+                        continue
+                    raise
                 unit.degraded.append({'contract': arg, 'reason': str(e)})
                 d = 'assume'
             g0 = len(out) + 1
